@@ -2,6 +2,7 @@
 (module name, qualified function, node, message) for the constructs it objects to, plus the number of
 sites it looked at, so that callers can set floors."""
 import ast
+import re
 
 from . import pyflow
 
@@ -687,6 +688,26 @@ def copy_shares_state(repo, modules):
                                             "`%s` gives the new object the dictionary of the original (the sibling field `%s` is "
                                             "copied): removing or changing an entry through one changes the other"
                                             % (ast.unparse(s), ast.unparse(deep[0].targets[0]))))
+                        # children: a loop over self.<kids> that builds the list for new.<kids> appends a copy of each
+                        # child on some path and the child itself on another
+                        for lp in ast.walk(f):
+                            if not (isinstance(lp, ast.For) and isinstance(lp.target, ast.Name) and isinstance(lp.iter, ast.Attribute)
+                                    and pyflow.is_name(lp.iter.value, "self")):
+                                continue
+                            kid = lp.target.id
+                            apps = [c for c in ast.walk(lp) if isinstance(c, ast.Call) and isinstance(c.func, ast.Attribute)
+                                    and c.func.attr == "append" and len(c.args) == 1 and isinstance(c.args[0], ast.Name)]
+                            copies = set(a.targets[0].id for a in ast.walk(lp) if isinstance(a, ast.Assign) and isinstance(a.targets[0], ast.Name)
+                                         and isinstance(a.value, ast.Call) and (ast.unparse(a.value.func).endswith(".clone")
+                                                                                or ast.unparse(a.value.func) in ("copy.copy", "copy.deepcopy")))
+                            if not copies or not any(c.args[0].id in copies for c in apps):
+                                continue
+                            for c in apps:
+                                if c.args[0].id == kid:
+                                    out.append((mn, "%s.%s" % (cls.name, f.name), c,
+                                                "`%s`: the new object gets the original's own `%s` entry where the other path gives it a copy "
+                                                "(`%s`): what is done to the child of one copy (renaming, re-parenting) is done to all"
+                                                % (ast.unparse(c), lp.iter.attr, sorted(copies)[0])))
     return out, n
 
 
@@ -710,6 +731,21 @@ def _attr_mutations(repo, modules, attr, owner=None, _depth=0):
                 if _depth == 0 and isinstance(a, ast.Assign) and isinstance(a.targets[0], ast.Attribute) \
                         and isinstance(a.value, ast.Attribute) and a.value.attr == attr and a.targets[0].attr != attr:
                     out.extend(_attr_mutations(repo, modules, a.targets[0].attr, owner, 1))
+            # a local name bound to the container (`order = self.attr` ... `order.extend(..)`)
+            local = set()
+            for a in ast.walk(fn):
+                if isinstance(a, ast.Assign) and len(a.targets) == 1 and isinstance(a.targets[0], ast.Name) and \
+                        isinstance(a.value, ast.Attribute) and a.value.attr == attr and \
+                        not (isinstance(a.value.value, ast.Name) and a.value.value.id in other):
+                    local.add(a.targets[0].id)
+            for s in ast.walk(fn):
+                if local and isinstance(s, ast.Call) and isinstance(s.func, ast.Attribute) and s.func.attr in _MUTATORS \
+                        and isinstance(s.func.value, ast.Name) and s.func.value.id in local:
+                    # the name must not be re-bound to a fresh container on another path only: any other binding
+                    # of the name is a copy or a literal
+                    binds = [a for a in ast.walk(fn) if isinstance(a, ast.Assign) and any(pyflow.is_name(t, s.func.value.id) for t in a.targets)]
+                    if any(isinstance(a.value, ast.Attribute) and a.value.attr == attr for a in binds):
+                        out.append((mn, q, s))
             for s in ast.walk(fn):
                 recv = None
                 if isinstance(s, ast.Call) and isinstance(s.func, ast.Attribute) and isinstance(s.func.value, ast.Attribute):
@@ -1001,4 +1037,334 @@ def memo_scope_owner_mismatch(repo, modules):
                                 "every wrapper that shares the same %s after the first one reuses the first one's scope - its parent "
                                 "chain and every field that is only set under a condition (rank, size, f_assumed_shape of the "
                                 "previous fortran_generic variant)" % (o1, o2, o1)))
+    return out, n
+
+
+def odd_source_in_copy_run(repo, modules):
+    """A run of neighbouring assignments copies same-named attributes from one object (`fmt.f_kind = tm.f_kind`,
+    `fmt.f_type = tm.f_type`, ...) or folds same-named attributes of two objects (`self.c = self.c or w.c`, ...).
+    One statement of the run that takes the attribute of that name from *another* object, or an attribute of
+    another name from the same object, is the odd one out (`fmt.sh_type = c_ast.typemap.sh_type`,
+    `self.c = self.c or w.c_f`)."""
+    out, n = [], 0
+
+    def kind_word(expr_text):
+        return re.split(r"[._]", expr_text)[-1]
+
+    def shape(st):
+        """(target base, attribute, kind, source base, source attribute) for `T.a = S.b` / `T.a = T.a or S.b`
+        (also when the statement is the whole body of an `if` without else: a guarded copy)"""
+        if isinstance(st, ast.If) and not st.orelse and len(st.body) == 1:
+            st = st.body[0]
+        if not (isinstance(st, ast.Assign) and len(st.targets) == 1 and isinstance(st.targets[0], ast.Attribute)):
+            return None
+        t = st.targets[0]
+        tb, ta = ast.unparse(t.value), t.attr
+        v = st.value
+        if isinstance(v, ast.Attribute):
+            return tb, ta, "copy", ast.unparse(v.value), v.attr
+        if isinstance(v, ast.BoolOp) and len(v.values) == 2 and all(isinstance(x, ast.Attribute) for x in v.values):
+            a, b = v.values
+            if ast.unparse(a.value) == tb and a.attr == ta:
+                return tb, ta, "fold-" + type(v.op).__name__, ast.unparse(b.value), b.attr
+        return None
+    for mn in modules:
+        m = repo.module(mn)
+        for q, fn in m.functions().items():
+            for node in ast.walk(fn):
+                for field in ("body", "orelse", "finalbody"):
+                    lst = getattr(node, field, None)
+                    if not isinstance(lst, list) or len(lst) < 3:
+                        continue
+                    run_ = []
+                    for st in lst + [None]:
+                        sh = shape(st) if st is not None else None
+                        if sh and (not run_ or (run_[-1][1][0] == sh[0] and run_[-1][1][2] == sh[2])):
+                            run_.append((st, sh))
+                            continue
+                        if len(run_) >= 3:
+                            n += 1
+                            same = [x for x in run_ if x[1][1] == x[1][4]]         # T.a <- S.a
+                            srcs = {}
+                            for st2, sh2 in same:
+                                srcs.setdefault(sh2[3], []).append(st2)
+                            major = max(srcs, key=lambda k: len(srcs[k])) if srcs else None
+                            if major is not None and len(srcs[major]) >= 2 and len(srcs[major]) >= len(run_) - 1:
+                                for st2, sh2 in run_:
+                                    if isinstance(st2, ast.If):
+                                        st2 = st2.body[0]
+                                    if sh2[3] == major and sh2[1] != sh2[4] and sh2[2].startswith("fold"):
+                                        out.append((mn, q, st2, "`%s`: the neighbouring statements take `%s.<same name>`; this one takes "
+                                                    "`.%s` for `.%s`" % (ast.unparse(st2), major, sh2[4], sh2[1])))
+                                    elif sh2[3] != major and sh2[1] == sh2[4] and (
+                                            kind_word(sh2[3]).endswith(kind_word(major)) or kind_word(major).endswith(kind_word(sh2[3]))):
+                                        # another object of the same kind (`c_ast.typemap` next to `ntypemap`)
+                                        out.append((mn, q, st2, "`%s`: the neighbouring statements copy their attributes from `%s`; this "
+                                                    "one takes `.%s` from `%s`" % (ast.unparse(st2), major, sh2[4], sh2[3])))
+                        run_ = [(st, sh)] if sh else []
+    return out, n
+
+
+def sibling_assignments_diverge(repo, modules):
+    """Three or more assignments of one function give the same value to sibling fields (`X.CXX_this_call`,
+    `X.LUA_this_call`, `X.PY_this_call` = ns.namespace_scope).  They describe one fact for several wrappers, so
+    they hold under the same conditions; one of them under a condition of its own is the odd one out."""
+    out, n = [], 0
+    for mn in modules:
+        m = repo.module(mn)
+        for q, fn in m.functions().items():
+            groups = {}
+            for a in ast.walk(fn):
+                if isinstance(a, ast.Assign) and len(a.targets) == 1 and isinstance(a.targets[0], ast.Attribute) and \
+                        isinstance(a.value, (ast.Attribute, ast.Name)):
+                    t = a.targets[0]
+                    if "_" not in t.attr:
+                        continue
+                    suffix = t.attr.split("_", 1)[1]
+                    groups.setdefault((ast.unparse(t.value), suffix, ast.unparse(a.value)), []).append(a)
+            for (base, suffix, rhs), lst in groups.items():
+                if len(lst) < 3 or len(set(a.targets[0].attr for a in lst)) < 3:
+                    continue
+                n += 1
+                conds = [frozenset(pyflow.path_atoms(a, stop=fn, seg=ast.unparse)) for a in lst]
+                common = max(set(conds), key=conds.count)
+                if conds.count(common) < len(lst) - 1:
+                    continue
+                for a, c in zip(lst, conds):
+                    if c != common:
+                        out.append((mn, q, a, "`%s` is assigned under %s while its siblings (%s) are assigned %s: the same fact "
+                                    "is recorded for the other wrappers but not for this one on the remaining paths"
+                                    % (ast.unparse(a), sorted(c - common) or "fewer conditions",
+                                       ", ".join(x.targets[0].attr for x in lst if x is not a),
+                                       "under %s" % sorted(common) if common else "unconditionally")))
+    return out, n
+
+
+def break_after_membership_match(repo, modules):
+    """`for x in xs: if key(x) in table: ...; break` - the test is a membership test in a table that can hold
+    several of the keys, the body applies the table's entry to the item: leaving the loop after the first match
+    skips the other entries.  (An equality test against one wanted value is a search and may stop.)"""
+    out, n = [], 0
+    for mn in modules:
+        m = repo.module(mn)
+        for q, fn in m.functions().items():
+            for lp in ast.walk(fn):
+                if not isinstance(lp, ast.For):
+                    continue
+                for i in lp.body:
+                    if not (isinstance(i, ast.If) and isinstance(i.test, ast.Compare) and len(i.test.ops) == 1
+                            and isinstance(i.test.ops[0], ast.In) and not i.orelse):
+                        continue
+                    n += 1
+                    table = i.test.comparators[0]
+                    if not isinstance(table, ast.Name):
+                        continue
+                    # the body uses table[key] (applies the entry) and ends with break
+                    uses = any(isinstance(x, ast.Subscript) and pyflow.is_name(x.value, table.id) for st in i.body for x in ast.walk(st))
+                    if uses and i.body and isinstance(i.body[-1], ast.Break):
+                        # the table is not consumed
+                        consumed = any(isinstance(c, ast.Call) and isinstance(c.func, ast.Attribute) and c.func.attr in ("pop", "remove")
+                                       and pyflow.is_name(c.func.value, table.id) for c in ast.walk(lp))
+                        if not consumed:
+                            out.append((mn, q, i.body[-1], "the loop applies `%s[...]` to every item whose key is in `%s` and stops after "
+                                        "the first one: the other entries of `%s` are never applied" % (table.id, table.id, table.id)))
+    return out, n
+
+
+def paired_key_writes(repo, modules):
+    """Two dictionaries of one object that are kept in step (`attrs[k]` the user's view, `metaattrs[k]` the value the
+    wrappers read): where a function writes the same key to both in one branch, a branch that writes it to only one
+    of them leaves the other with the old value."""
+    out, n = [], 0
+    for mn in modules:
+        m = repo.module(mn)
+        for q, fn in m.functions().items():
+            lists = []
+            for node in ast.walk(fn):
+                for field in ("body", "orelse"):
+                    lst = getattr(node, field, None)
+                    if isinstance(lst, list):
+                        lists.append(lst)
+            writes = []
+            for lst in lists:
+                w = {}
+                for st in lst:
+                    if isinstance(st, ast.Assign) and len(st.targets) == 1 and isinstance(st.targets[0], ast.Subscript) and \
+                            isinstance(st.targets[0].value, ast.Name) and pyflow.const_str(st.targets[0].slice):
+                        w.setdefault(pyflow.const_str(st.targets[0].slice), {})[st.targets[0].value.id] = st
+                writes.append(w)
+            pairs = set()
+            for w in writes:
+                for k, d in w.items():
+                    if len(d) == 2:
+                        pairs.add((k, frozenset(d)))
+            for k, names in pairs:
+                n += 1
+                for w in writes:
+                    d = w.get(k, {})
+                    if len(d) == 1 and set(d) < set(names):
+                        other = list(set(names) - set(d))[0]
+                        st = list(d.values())[0]
+                        if any(isinstance(x, ast.Subscript) and pyflow.is_name(x.value, other) and pyflow.const_str(x.slice) == k
+                               for x in ast.walk(st.value)):
+                            continue        # copied from the other one: they agree
+                        out.append((mn, q, st, "`%s`: elsewhere in this function `%s[%r]` and `%s[%r]` are written together; here only "
+                                    "one of them is, the other keeps its old value" % (ast.unparse(st), list(d)[0], k, other, k)))
+    return out, n
+
+
+def format_before_inputs(repo, modules):
+    """`fmt.X = wformat(options.T_template, fmt)` is evaluated, and later in the same block a field that the default
+    of T_template uses is assigned on the same scope: the name was built from the value the field had before."""
+    out, n = [], 0
+    am = repo.module("ast")
+    defaults = {}
+    for key, val in pyflow.table_fields(am.tree):
+        if key.endswith("_template") and pyflow.const_str(val):
+            defaults[key] = pyflow.const_str(val)
+    for mn in modules:
+        m = repo.module(mn)
+        for q, fn in m.functions().items():
+            for node in ast.walk(fn):
+                for field in ("body", "orelse"):
+                    lst = getattr(node, field, None)
+                    if not isinstance(lst, list):
+                        continue
+                    for idx, st in enumerate(lst):
+                        if not (isinstance(st, ast.Assign) and isinstance(st.value, ast.Call) and
+                                (pyflow.call_name(st.value) or "").endswith("wformat") and len(st.value.args) == 2):
+                            continue
+                        tmpl, scope = st.value.args
+                        if not (isinstance(tmpl, ast.Attribute) and tmpl.attr in defaults and isinstance(scope, ast.Name)):
+                            continue
+                        n += 1
+                        fields = set(re.findall(r"\{(\w+)\}", defaults[tmpl.attr]))
+                        for later in lst[idx + 1:]:
+                            for a in ast.walk(later):
+                                if isinstance(a, ast.Assign) and isinstance(a.targets[0], ast.Attribute) and \
+                                        pyflow.is_name(a.targets[0].value, scope.id) and a.targets[0].attr in fields:
+                                    out.append((mn, q, st, "`%s` is expanded (`%s` = \"%s\") before `%s.%s` is assigned a few lines below: "
+                                                "the name is built from the value the field had before"
+                                                % (ast.unparse(st.targets[0]), tmpl.attr, defaults[tmpl.attr], scope.id, a.targets[0].attr)))
+    return out, n
+
+
+def falsy_default_on_numeric_option(repo, modules):
+    """`options.N or <default>` where N is an option whose default is a number: 0 is a value of such an option (line
+    length 0 = shortest possible lines), `or` replaces it by the default."""
+    out, n = [], 0
+    am = repo.module("ast")
+    numeric = set()
+    for key, val in pyflow.table_fields(am.func("LibraryNode.default_options")):
+        if isinstance(val, ast.Constant) and type(val.value) in (int, float):
+            numeric.add(key)
+    for mn in modules:
+        m = repo.module(mn)
+        for q, fn in m.functions().items():
+            for b in ast.walk(fn):
+                if isinstance(b, ast.BoolOp) and isinstance(b.op, ast.Or) and isinstance(b.values[0], ast.Attribute) and \
+                        b.values[0].attr in numeric and "options" in ast.unparse(b.values[0].value):
+                    n += 1
+                    out.append((mn, q, b, "`%s`: %s is a numeric option and 0 is one of its values; `or` replaces 0 by the default"
+                                % (ast.unparse(b), b.values[0].attr)))
+            for b in ast.walk(fn):
+                if isinstance(b, ast.Attribute) and b.attr in numeric and "options" in ast.unparse(b.value):
+                    n += 1
+    return out, n
+
+
+def first_wins_class_memo(repo, modules):
+    """`if K.attr is None: K.attr = <something of this run>` on a class attribute (or `K.attr = K.attr or ...`): the
+    first run of the process fills it and every later run reads the first run's value.  A class attribute that is
+    set unconditionally at the start of every run (an assignment in some __init__ that is not under such a test) is
+    per-run state and is not reported."""
+    out, n = [], 0
+    classes = {}
+    for mn in modules:
+        m = repo.module(mn)
+        for c in ast.walk(m.tree):
+            if isinstance(c, ast.ClassDef):
+                classes[c.name] = (mn, c)
+    for mn in modules:
+        m = repo.module(mn)
+        for q, fn in m.functions().items():
+            for i in ast.walk(fn):
+                if not isinstance(i, ast.If):
+                    continue
+                t = i.test
+                if not (isinstance(t, ast.Compare) and len(t.ops) == 1 and isinstance(t.ops[0], ast.Is) and
+                        isinstance(t.comparators[0], ast.Constant) and t.comparators[0].value is None and
+                        isinstance(t.left, ast.Attribute) and isinstance(t.left.value, ast.Name) and t.left.value.id in classes):
+                    continue
+                n += 1
+                cls, attr = t.left.value.id, t.left.attr
+                fills = [a for st in i.body for a in ast.walk(st) if isinstance(a, ast.Assign) and
+                         ast.unparse(a.targets[0]) == "%s.%s" % (cls, attr)]
+                if not fills:
+                    continue
+                # an unconditional per-run assignment elsewhere?
+                per_run = False
+                for mn2 in modules:
+                    m2 = repo.module(mn2)
+                    for q2, f2 in m2.functions().items():
+                        for a in ast.walk(f2):
+                            if isinstance(a, ast.Assign) and ast.unparse(a.targets[0]) == "%s.%s" % (cls, attr) and a not in fills:
+                                per_run = True
+                if not per_run:
+                    out.append((mn, q, fills[0], "`%s.%s` is a class attribute that is filled when it is still None and never set again: "
+                                "the second library wrapped in the same process reads what the first one stored" % (cls, attr)))
+    return out, n
+
+
+def singleton_shortcut_mismatch(repo, modules):
+    """`if len(xs) == 1: y = ys[0]; ...` - the shortcut for "there is only one" tests the length of one list and takes
+    the first element of another.  When the lists differ in length (overloads against calls: one overload with
+    default arguments gives several calls) the shortcut takes a wrong, or the wrong number of, elements."""
+    out, n = [], 0
+    for mn in modules:
+        m = repo.module(mn)
+        for q, fn in m.functions().items():
+            for i in ast.walk(fn):
+                if not (isinstance(i, ast.If) and isinstance(i.test, ast.Compare) and len(i.test.ops) == 1
+                        and isinstance(i.test.ops[0], ast.Eq) and isinstance(i.test.left, ast.Call)
+                        and pyflow.is_name(i.test.left.func, "len") and i.test.left.args
+                        and isinstance(i.test.left.args[0], ast.Name)
+                        and isinstance(i.test.comparators[0], ast.Constant) and i.test.comparators[0].value == 1):
+                    continue
+                tested = i.test.left.args[0].id
+                firsts = [x for st in i.body for x in ast.walk(st) if isinstance(x, ast.Subscript) and isinstance(x.value, ast.Name)
+                          and isinstance(x.slice, ast.Constant) and x.slice.value == 0 and isinstance(x.ctx, ast.Load)]
+                if not firsts:
+                    continue
+                n += 1
+                for x in firsts:
+                    if x.value.id != tested:
+                        # both are lists built in this function
+                        out.append((mn, q, i, "`if len(%s) == 1:` takes `%s[0]`: the test is about another list than the one the "
+                                    "element comes from; when `%s` has more entries than `%s` the others are never looked at"
+                                    % (tested, x.value.id, x.value.id, tested)))
+    return out, n
+
+
+def early_exit_skips_traversal(repo, modules):
+    """A function that walks a node visits several kinds of children one after the other.  `if not node.functions:
+    return` in front of the loop over `node.namespaces` makes the visit of one kind depend on the presence of
+    another."""
+    out, n = [], 0
+    for mn in modules:
+        m = repo.module(mn)
+        for q, fn in m.functions().items():
+            for lp in ast.walk(fn):
+                if not (isinstance(lp, ast.For) and isinstance(lp.iter, ast.Attribute) and isinstance(lp.iter.value, ast.Name)):
+                    continue
+                owner, kind = lp.iter.value.id, lp.iter.attr
+                if kind not in ("namespaces", "classes", "functions", "enums", "variables", "typedefs"):
+                    continue
+                n += 1
+                for t, pol in pyflow.early_exit_guards(fn, lp):
+                    for x in ast.walk(t):
+                        if isinstance(x, ast.Attribute) and isinstance(x.value, ast.Name) and x.value.id == owner and \
+                                x.attr in ("namespaces", "classes", "functions", "enums", "variables", "typedefs") and x.attr != kind:
+                            out.append((mn, q, lp, "the %s of `%s` are visited only when `%s.%s` is not empty (an earlier `return`): "
+                                        "a scope without %s loses its %s" % (kind, owner, owner, x.attr, x.attr, kind)))
     return out, n
